@@ -95,6 +95,7 @@ type gen struct {
 	kinds  []Kind
 	edges  [][]Edge // outgoing per module
 	inCyc  []bool
+	dflt   []bool // ESM module i has a default export (decided before edges are drawn)
 	labels map[string]bool
 	nextID int
 }
@@ -138,6 +139,10 @@ func Generate(t *rapid.T, cfg Config) *Graph {
 	}
 	g.edges = make([][]Edge, g.n)
 	g.inCyc = make([]bool, g.n)
+	g.dflt = make([]bool, g.n)
+	for i := range g.dflt {
+		g.dflt[i] = g.kinds[i] == CJS || g.chance(60, "hasdefault")
+	}
 	// a spanning structure so that every module is reachable from an entry: module i>entries is
 	// imported by some earlier module; extra forward edges; optional back edges (cycles)
 	entries := 1
@@ -195,8 +200,10 @@ func (g *gen) addEdge(from, to int) {
 	case fk == CJS && tk == CJS:
 		kind = Require
 	case fk == CJS && tk == ESM:
-		// require(esm) is excluded: turn the importer's dependency into a dynamic import if allowed, else drop
-		if !g.cfg.AllowDynamic {
+		// require(esm) is excluded: turn the importer's dependency into a dynamic import if allowed, else drop.
+		// Only entry points issue dynamic imports, and they chain them one after the other: the relative
+		// timing of independent import() chains is host-defined and differs between loaders and bundles.
+		if !g.cfg.AllowDynamic || !g.isEntry(from) {
 			return
 		}
 		kind = DynamicImport
@@ -205,13 +212,13 @@ func (g *gen) addEdge(from, to int) {
 		g.labels["esm-imports-cjs"] = true
 	default:
 		opts := []string{ImportNamed, ImportNamed, ImportDefault, ImportStar, ImportSide, ExportFrom, ExportStar, ExportStarAs}
-		if g.cfg.AllowDynamic && from == 0 && g.cfg.MultiEntry == 0 {
-			opts = append(opts, DynamicImport)
-		}
-		if g.cfg.MultiEntry > 0 && g.cfg.AllowDynamic {
+		if g.cfg.AllowDynamic && g.isEntry(from) {
 			opts = append(opts, DynamicImport)
 		}
 		kind = opts[g.intn(len(opts), "edgekind")]
+		if kind == ImportDefault && !g.dflt[to] {
+			kind = ImportNamed // importing a missing default is a link-time SyntaxError, not a program
+		}
 	}
 	for _, e := range g.edges[from] {
 		if e.To == to && e.Kind == kind {
@@ -220,6 +227,13 @@ func (g *gen) addEdge(from, to int) {
 	}
 	g.edges[from] = append(g.edges[from], Edge{from, to, kind})
 	g.labels[kind] = true
+}
+
+func (g *gen) isEntry(i int) bool {
+	if g.cfg.MultiEntry > 0 {
+		return i < g.cfg.MultiEntry
+	}
+	return i == 0
 }
 
 func (g *gen) markCycles() {
@@ -267,6 +281,7 @@ func (g *gen) body(i int) Module {
 	if k == CJS {
 		w(`log("%s:start");`, tag)
 		var reads []string
+		var cjsDyn []string
 		for _, e := range g.edges[i] {
 			switch e.Kind {
 			case Require:
@@ -275,8 +290,11 @@ func (g *gen) body(i int) Module {
 				w(`log("%s:required m%d", Object.keys(%s).sort().join(","), typeof %s.f%d === "function" ? %s.f%d() : "nofn");`, tag, e.To, v, v, e.To, v, e.To)
 				reads = append(reads, v)
 			case DynamicImport:
-				w(`import("./%s").then(function (ns) { log("%s:dyn m%d", Object.keys(ns).sort().join(","), ns.a%d); }, function (e) { log("%s:dyn m%d failed", e); });`, fileName(e.To, g.kinds[e.To]), tag, e.To, e.To, tag, e.To)
+				cjsDyn = append(cjsDyn, fmt.Sprintf(`.then(function () { return import("./%s"); }).then(function (ns) { log("%s:dyn m%d", Object.keys(ns).sort().join(","), ns.a%d); }, function (e) { log("%s:dyn m%d failed", e); })`, fileName(e.To, g.kinds[e.To]), tag, e.To, e.To, tag, e.To))
 			}
+		}
+		if len(cjsDyn) > 0 {
+			w(`Promise.resolve()%s;`, strings.Join(cjsDyn, ""))
 		}
 		w(`exports.a%d = p(%d, "A%d");`, i, g.id(), i)
 		w(`exports.f%d = function () { return "F%d"; };`, i, i)
@@ -339,7 +357,7 @@ func (g *gen) body(i int) Module {
 			w(`export * as star%d_via%d from "%s";`, to, i, spec)
 			m.Exports = append(m.Exports, fmt.Sprintf("star%d_via%d", to, i))
 		case DynamicImport:
-			deferred = append(deferred, fmt.Sprintf(`import("%s").then(function (ns) { log("%s:dyn m%d", Object.keys(ns).sort().join(","), ns.a%d); }, function (e) { log("%s:dyn m%d failed", e); })`, spec, tag, to, to, tag, to))
+			deferred = append(deferred, fmt.Sprintf(`.then(function () { return import("%s"); }).then(function (ns) { log("%s:dyn m%d", Object.keys(ns).sort().join(","), ns.a%d); }, function (e) { log("%s:dyn m%d failed", e); })`, spec, tag, to, to, tag, to))
 		}
 	}
 	w(`log("%s:start");`, tag)
@@ -373,7 +391,7 @@ func (g *gen) body(i int) Module {
 	} else {
 		w(`export function read%d() { return []; }`, i)
 	}
-	if g.chance(50, "default") {
+	if g.dflt[i] {
 		m.HasDflt = true
 		switch g.intn(4, "defkind") {
 		case 0:
@@ -395,8 +413,8 @@ func (g *gen) body(i int) Module {
 		w(`var unused%d = p(%d, "U%d");`, i, g.id(), i)
 		w(`function unusedFn%d() { log("never called"); }`, i)
 	}
-	for _, d := range deferred {
-		w(`%s;`, d)
+	if len(deferred) > 0 {
+		w(`Promise.resolve()%s;`, strings.Join(deferred, ""))
 	}
 	w(`log("%s:end");`, tag)
 	if i == 0 || (g.cfg.MultiEntry > 0 && i < g.cfg.MultiEntry) {
